@@ -188,8 +188,16 @@ impl Session {
         let post_p = md_json(cx, guard(|| cx.path(root, &op.p).metadata()));
         let mut calls = vec![];
         let mut opened = vec![];
+        // layers that are sub-paths of one recorded filesystem share one log: attribute each call by its path prefix
+        let shared = self.w.layers.len() > 1 && self.w.layers.iter().all(|l| l.prefix.is_some());
+        let shared_log: Vec<(&'static str, String)> = if shared { self.w.layers[0].log.stop() } else { vec![] };
         for (i, l) in self.w.layers.iter().enumerate() {
-            let log = l.log.stop();
+            let log: Vec<(&'static str, String)> = if shared {
+                let pre = l.prefix.as_ref().unwrap();
+                shared_log.iter().filter(|(_, p)| p == pre || p.starts_with(&format!("{pre}/"))).map(|(m, p)| (*m, p[pre.len()..].to_string())).collect()
+            } else {
+                l.log.stop()
+            };
             let mut seen = std::collections::BTreeSet::new();
             for (m, p) in log {
                 if m == "open_file" {
@@ -216,9 +224,16 @@ impl Session {
         }
         let obs = observe(root, &self.universe, cx, self.rot);
         let mut ocalls = vec![];
+        let shared_olog: Vec<(&'static str, String)> = if shared { self.w.layers[0].log.stop() } else { vec![] };
         for (i, l) in self.w.layers.iter().enumerate() {
+            let log: Vec<(&'static str, String)> = if shared {
+                let pre = l.prefix.as_ref().unwrap();
+                shared_olog.iter().filter(|(_, p)| p == pre || p.starts_with(&format!("{pre}/"))).cloned().collect()
+            } else {
+                l.log.stop()
+            };
             let mut seen = std::collections::BTreeSet::new();
-            for (m, _p) in l.log.stop() {
+            for (m, _p) in log {
                 if seen.insert(m) {
                     ocalls.push(json!([i + 1, m]));
                 }
